@@ -147,7 +147,7 @@ Definition model_scope (g : graph) (s : step) : option (tree * nat * tree) :=
    2 the note has front matter
    3 the converted block is adjacent to a list of the resulting type
    4 the conversion writes a heading deeper than 6
-   5 the conversion puts a rule or table into a tight item
+   5 the conversion writes a tight item holding a rule or table, or two quotes in a row
    6 section -> list on a section that follows a sibling section *)
 Definition eval_act (c : actcase) (g : graph) (a : act_obs) : list N * list N :=
   let lc := ac_lib c in
